@@ -167,11 +167,11 @@ void _ZNK26QMessageAuthenticationCode6resultEv(char *ret, char *self) { struct c
 void vp_sym_bytes_n(char *out, uint32_t maxlen) { uint32_t len = vp_u32(); ASSUME(len <= maxlen); ASSERT(maxlen <= 16, "symbolic bytes bound"); QAD *d = qb_new(len, maxlen); uint8_t *p = C06_BD(d);
   for (uint32_t i = 0; i < 16; i++) { if (i >= maxlen) break; p[i] = vp_u8(); } p[len] = 0; QBD(out) = d; }
 /* exactly n symbolic bytes */
-void vp_sym_bytes_exact(char *out, uint32_t n) { ASSERT(n <= 16, "symbolic bytes bound"); QAD *d = qb_new(n, n); uint8_t *p = C06_BD(d); for (uint32_t i = 0; i < 16; i++) { if (i >= n) break; p[i] = vp_u8(); } p[n] = 0; QBD(out) = d; }
+void vp_c06_sym_bytes_exact(char *out, uint32_t n) { ASSERT(n <= 16, "symbolic bytes bound"); QAD *d = qb_new(n, n); uint8_t *p = C06_BD(d); for (uint32_t i = 0; i < 16; i++) { if (i >= n) break; p[i] = vp_u8(); } p[n] = 0; QBD(out) = d; }
 #endif
 #ifdef HAVE_T_struct_QArrayData
 /* exactly n symbolic UTF-16 units (concrete length keeps every later offset concrete) */
-void vp_sym_string_exact(char *out, uint32_t n) { ASSERT(n <= 8, "symbolic string bound"); QAD *d = qs_new(n, n); uint16_t *p = ((struct qs*)d)->data; for (uint32_t i = 0; i < 8; i++) { if (i >= n) break; p[i] = vp_u16(); } *(QAD**)out = d; }
+void vp_c06_sym_string_exact(char *out, uint32_t n) { ASSERT(n <= 8, "symbolic string bound"); QAD *d = qs_new(n, n); uint16_t *p = ((struct qs*)d)->data; for (uint32_t i = 0; i < 8; i++) { if (i >= n) break; p[i] = vp_u16(); } *(QAD**)out = d; }
 #endif
 /* per-instance configuration constants (cdefs C06_CFG0..5): lets one translated program serve several length variants */
 #ifndef C06_CFG0
